@@ -206,9 +206,36 @@ func storesOf(info *types.Info, fd *ast.FuncDecl) (pkgVars map[string]token.Pos,
 	if fd.Recv != nil && len(fd.Recv.List) == 1 && len(fd.Recv.List[0].Names) == 1 {
 		recvObj = info.Defs[fd.Recv.List[0].Names[0]]
 	}
-	record := func(l ast.Expr) {
+	// local pointers to receiver fields / package variables: stores through them hit that storage
+	alias := map[types.Object]ast.Expr{}
+	ast.Inspect(fd.Body, func(n ast.Node) bool {
+		as, ok := n.(*ast.AssignStmt)
+		if !ok || len(as.Lhs) != len(as.Rhs) {
+			return true
+		}
+		for i, l := range as.Lhs {
+			lo := identObj(info, l)
+			if lo == nil {
+				continue
+			}
+			if u, ok := unparen(as.Rhs[i]).(*ast.UnaryExpr); ok && u.Op == token.AND {
+				if ro := rootObject(info, u.X); ro != nil && (isPkgLevelVar(ro) || ro == recvObj) {
+					alias[lo] = u.X
+				}
+			}
+		}
+		return true
+	})
+	var record func(l ast.Expr)
+	record = func(l ast.Expr) {
 		root := rootObject(info, l)
 		if root == nil {
+			return
+		}
+		if target, ok := alias[root]; ok {
+			delete(alias, root) // avoid cycles
+			record(target)
+			alias[root] = target
 			return
 		}
 		if isPkgLevelVar(root) {
@@ -284,4 +311,42 @@ func sortedMapKeys(m map[string]token.Pos) []string {
 	}
 	sort.Strings(out)
 	return out
+}
+
+// stagedErrors records, once per report, every reason why the staged program could not be built completely:
+// an unrecognised builder construct means the fragment texts are not bounded, so every obligation that stands on
+// the shapes or skeletons is undecided.
+func stagedErrors(r *Report, clause string, st *Staged) {
+	for _, e := range st.Errs {
+		r.Undecided(clause, "R11 STAGED", "staging", "-", e)
+	}
+	seen := map[string]bool{}
+	for _, sc := range st.Configs {
+		if sc.V.Http {
+			continue
+		}
+		for _, e := range sc.Errs {
+			if seen[e] {
+				continue
+			}
+			seen[e] = true
+			r.Undecided(clause, "R11 STAGED", "Builder/shape-extraction", "Builder/GoTemplBuilder.go", "a fragment builder uses a construct outside the recognised subset, so the generated text cannot be bounded: "+e)
+		}
+		for _, sk := range sc.Skels {
+			for _, e := range sk.TypeErs {
+				if strings.HasPrefix(e, "render:") && !seen[e] {
+					seen[e] = true
+					r.Undecided(clause, "R11 STAGED", "skeleton "+sc.V.Name+"/rendering", "Builder", e)
+				}
+			}
+		}
+	}
+	if st.TS != nil {
+		for _, e := range st.TS.Errs {
+			if !seen[e] {
+				seen[e] = true
+				r.Undecided(clause, "R11 STAGED", "Builder/ts-shape-extraction", "Builder/TsGenCode.go", e)
+			}
+		}
+	}
 }
